@@ -237,6 +237,48 @@ def sack_worker(cases, lay_by_key, extra):
             if len(res["samples"]) < 1 and len(model_out) > 2 and hidden:
                 res["samples"].append({"deps": deps, "src": src, "hidden": sorted(hidden), "output": names})
             shutil.rmtree(sub, ignore_errors=True)
+            # the same graph twice under the same names in two namespaces (references unqualified / elaborated)
+            tkey = json.dumps([sorted(deps.items()), sorted(hidden), "twin"])
+            if tkey in lay_by_key:
+                tlay, tidx = lay_by_key[tkey]
+                text = CL.sack_twin_header(deps, src, hidden)
+                os.makedirs(sub)
+                tpath = os.path.join(sub, "twin.hpp")
+                with open(tpath, "w") as f:
+                    f.write(text)
+                res["n"] += 1
+                res["twins"] = res.get("twins", 0) + 1
+                tb = {"check": "sack order", "deps": deps, "src": src, "hidden": sorted(hidden), "header": text}
+                status, nodes, errtext = CL.run_main([tpath, "--sack", "--python_out", sub])
+                if status != "ok":
+                    res["fails"].append(dict(tb, what="prophyc --sack failed on a valid header: %s %s" % (nodes, errtext[:300])))
+                else:
+                    got = [x for x in nodes["twin"] if type(x).__name__ != "Include"]
+                    gnames = [x.name for x in got]
+                    want = sorted(["%s__N%d" % (ns, n) for ns in ("a", "b") for n in deps] + ["Root"])
+                    if sorted(gnames) != want:
+                        res["fails"].append(dict(tb, what="output lists %r; the header defines %r and Root uses all of them "
+                                                 "(each exactly once)" % (gnames, want), output=gnames))
+                    else:
+                        tpos = {nme: q for q, nme in enumerate(gnames)}
+                        tbad = [(ns, n, d) for ns in ("a", "b") for n in deps for d in deps[n]
+                                if tpos["%s__N%d" % (ns, d)] > tpos["%s__N%d" % (ns, n)]]
+                        if tbad:
+                            res["fails"].append(dict(tb, what="output order %r: %s__N%d comes before its dependency %s__N%d"
+                                                     % (gnames, tbad[0][0], tbad[0][1], tbad[0][0], tbad[0][2]), output=gnames))
+                        try:
+                            P.import_generated(sub, "twin")
+                        except P.CompileFailure as e:
+                            res["fails"].append(dict(tb, what="generated Python module does not import: %s" % e, output=gnames))
+                        for x in got:
+                            if type(x).__name__ == "Enum":
+                                continue
+                            key = "Root" if x.name == "Root" else (x.name[0], int(x.name[4:]))
+                            w = tlay[tidx[key] - 1]
+                            if (x.byte_size, x.alignment) != (w["size"], w["align"]):
+                                res["fails"].append(dict(tb, what="layout of %s is (%r, %r); layout rules give (%d, %d)"
+                                                         % (x.name, x.byte_size, x.alignment, w["size"], w["align"])))
+                shutil.rmtree(sub, ignore_errors=True)
     finally:
         shutil.rmtree(work, ignore_errors=True)
     return res
@@ -261,6 +303,16 @@ def sack_leg(rep, tier):
         keys.append(key)
         envs.append(defs)
         idxs.append(idx)
+    for c in cases:
+        deps = {i + 1: list(d) for i, d in enumerate(c["deps"])}
+        key = json.dumps([sorted(deps.items()), sorted(c["hidden"]), "twin"])
+        if key in seen or not any(deps.values()) or (tier == "quick" and (len(seen) + len(c["hidden"])) % 3):
+            continue
+        seen.add(key)
+        defs, idx = CL.sack_twin_env(deps, set(c["hidden"]))
+        keys.append(key)
+        envs.append(defs)
+        idxs.append(idx)
     lays, st = wire.layout_of(envs)
     rep.add_tlc(st)
     lay_by_key = {}
@@ -273,6 +325,7 @@ def sack_leg(rep, tier):
         results = list(ex.map(sack_worker, jobs, [lay_by_key] * len(jobs), [{"scratch": scratch_dir("sack")}] * len(jobs)))
     same = other = n = 0
     for r in results:
+        rep.cov["sack_twin_namespace_headers"] = rep.cov.get("sack_twin_namespace_headers", 0) + r.get("twins", 0)
         rep.count(r["n"])
         rep.validated(r["n"])
         n += r["n"]
@@ -356,7 +409,17 @@ def expr_cases(tier):
     res = run_tlc("Expr", {"Depth": depth, "Lits": "{0, 1, 2, 5, 12}", "NameVals": "<- NV"},
                   invariants=["ValueSmall", "EDump"], spec="ESpec", prefix=("EXPR",),
                   on_line=lambda t, b: cases.append(json.loads(b)))
-    return cases, [res.stats]
+    # the same expressions under a second binding of K1, K2 (the names denote other values in another file of the
+    # same compilation): where the expression is well-formed under both, its second value is kept with the case
+    second = {}
+    res2 = run_tlc("Expr", {"Depth": depth, "Lits": "{0, 1, 2, 5, 12}", "NameVals": "<- NV2"},
+                   invariants=["ValueSmall", "EDump"], spec="ESpec", prefix=("EXPR",),
+                   on_line=lambda t, b: (lambda c: second.__setitem__(c["min"], c))(json.loads(b)))
+    for c in cases:
+        o = second.get(c["min"])
+        if c["min"] and o is not None:
+            c["value2"], c["names2"] = o["value"], o["names"]
+    return cases, [res.stats, res2.stats]
 
 
 def _has_octal(text):
@@ -698,6 +761,33 @@ def expr_worker(cases, wid, extra):
                     fail(c, "isar array sizes named by constant and enumerator (%s)" % txt,
                          "'u8 a[%s%d]; u16 b[E%s%d_a]' has model size %r and Python _SIZE %r, expected %d"
                          % (tag, i, tag, i, sn.byte_size, py_size, want_size))
+        # the same texts in a second file of the same compilation, where K1, K2 denote other values
+        reb = [(i, tag, txt, c) for i, tag, txt, c in used if tag != "I" and "value2" in c and 1 <= c["value2"] <= 64
+               and 1 <= c["value"] <= 64 and not c.get("_nostruct")]
+        if reb:
+            def sized(prefix, kvals):
+                el = ['<constant name="K%d" value="%d"/>' % (q + 1, v) for q, v in enumerate(kvals)]
+                el += ['<struct name="%s%s%d"><member name="a" type="u8"><dimension size="%s"/></member></struct>'
+                       % (prefix, tag, i, CL.xml_escape(txt)) for i, tag, txt, c in reb]
+                return "<x>\n%s\n</x>\n" % "\n".join(el)
+            p1, p2 = os.path.join(sub, "first.xml"), os.path.join(sub, "second.xml")
+            with open(p1, "w") as f:
+                f.write(sized("RA", names))
+            with open(p2, "w") as f:
+                f.write(sized("RB", reb[0][3]["names2"]))
+            st2, nodes2, _ = CL.run_main([p1, p2, "--isar", "--python_out", sub])
+            if st2 != "ok":
+                fail(reb[0][3], "isar, two files", "prophyc --isar failed on two files that bind K1, K2 differently (%s): %s"
+                     % (st2, str(nodes2)[:300]))
+            else:
+                for fname, prefix, key in (("first", "RA", "value"), ("second", "RB", "value2")):
+                    byn = {n.name: n for n in nodes2[fname]}
+                    for i, tag, txt, c in reb:
+                        got = byn["%s%s%d" % (prefix, tag, i)].byte_size
+                        if got != c[key]:
+                            fail(c, "isar array size (%s) in the %s of two files" % (txt, fname),
+                                 "model size is %r; with K = %r the expression denotes %d"
+                                 % (got, names if key == "value" else c["names2"], c[key]))
         shutil.rmtree(sub, ignore_errors=True)
         return "ok", None
 
@@ -1235,6 +1325,63 @@ def independent_worker(seeds, wid, extra):
     return res
 
 
+def many_sizers_worker(seeds, wid, extra):
+    """Schemas in which every collection a generator may gather has several
+    members: a struct whose later part holds arrays counted by several sizers of
+    an earlier part (fixed arrays turned into limited ones by a patch file).
+    Compiled under different hash seeds and from another directory."""
+    res = {"fails": [], "n": 0, "runs": 0}
+    base = tempfile.mkdtemp(prefix="vfmsz-", dir=extra.get("scratch"))
+    words = ["n", "m", "j", "k", "len", "cnt", "count", "num", "size", "total", "amount", "q", "w", "items", "nof", "sz"]
+    try:
+        for sd in seeds:
+            rnd = random.Random(sd)
+            root = os.path.join(base, "m%d" % sd)
+            os.makedirs(os.path.join(root, "elsewhere"))
+            k = rnd.randint(3, 6)
+            sizers = rnd.sample(words, k)
+            text = "struct X\n{\n" + "".join("    u%d %s;\n" % (rnd.choice((8, 16, 32)), z) for z in sizers)
+            text += "    u8 d<@%s>;\n" % sizers[0]
+            arrs = []
+            for i, z in enumerate(sizers[1:-1]):
+                arrs.append(("a%d" % i, z))
+                text += "    u%d a%d[%d];\n" % (rnd.choice((8, 16, 32)), i, rnd.randint(2, 4))
+            text += "    u32 b<@%s>;\n};\n" % sizers[-1]
+            rnd.shuffle(arrs)
+            patch = "".join("X limited %s %s\n" % a for a in arrs)
+            with open(os.path.join(root, "x.prophy"), "w") as f:
+                f.write(text)
+            with open(os.path.join(root, "x.patch"), "w") as f:
+                f.write(patch)
+            basef = {"check": "determinism", "schema": text, "patch": patch}
+
+            def run(hashseed, cwd, tag):
+                out = os.path.join(root, "o_" + tag)
+                os.makedirs(out)
+                argv = [os.path.join(root, "x.prophy"), "--patch", os.path.join(root, "x.patch"), "--python_out", out,
+                        "--cpp_out", out, "--cpp_full_out", out, "--prophy_out", out]
+                rc, txt = CL.run_cli(argv, cwd=os.path.join(root, cwd), env={"PYTHONHASHSEED": hashseed})
+                res["runs"] += 1
+                return rc, txt, _snapshot(out)
+
+            rc, txt, ref = run("0", ".", "ref")
+            res["n"] += 1
+            if rc != 0:
+                res["fails"].append(dict(basef, what="baseline run failed (rc=%s): %s" % (rc, txt[-300:])))
+                continue
+            for hs, cwd in (("1", "."), ("2", "elsewhere"), ("3", "."), ("4", "."), ("5", "."), ("random", ".")):
+                rc, txt, snap = run(hs, cwd, "s" + hs)
+                if rc != 0 or snap != ref:
+                    diff = sorted(n for n in set(ref) | set(snap) if ref.get(n) != snap.get(n))
+                    res["fails"].append(dict(basef, what="outputs differ from the reference run (PYTHONHASHSEED=0) for "
+                                             "PYTHONHASHSEED=%s, cwd=%s: %s %s" % (hs, cwd, diff, txt[-200:] if rc else "")))
+                    break
+            shutil.rmtree(root, ignore_errors=True)
+    finally:
+        shutil.rmtree(base, ignore_errors=True)
+    return res
+
+
 def c20(tier, replay):
     rep = Report("C20", tier)
     rep.assumptions = [
@@ -1244,7 +1391,9 @@ def c20(tier, replay):
         "with PYTHONHASHSEED 1, 2 and random, from another working directory with absolute paths, with the command-line "
         "order permuted, and each input alone; all generated files are compared byte for byte",
         "plus triples of independent random schemas that reuse the same type names for different definitions, compiled "
-        "alone and together in several orders"]
+        "alone and together in several orders",
+        "plus structs whose later part holds arrays counted by several sizers of an earlier part (fixed arrays made "
+        "limited by a patch file), compiled under six hash seeds and from another directory"]
     cases, stats = fileproc_cases()
     for st in stats:
         rep.add_tlc(st)
@@ -1279,6 +1428,17 @@ def c20(tier, replay):
         rep.cov["independent_file_triples"] = rep.cov.get("independent_file_triples", 0) + r["n"]
         for f in r["fails"]:
             rep.violation(f, shadows.match("C20", f))
+    # structs whose later part is counted by several sizers of an earlier part (patch file), under several hash seeds
+    nms = 16 if tier == "quick" else 320
+    seeds = [seed() * 100000 + k for k in range(nms)]
+    with ProcessPoolExecutor(max_workers=NCPU) as ex:
+        results = list(ex.map(many_sizers_worker, _chunks(seeds, NCPU), range(NCPU), [{"scratch": scratch_dir("msz")}] * NCPU))
+    for r in results:
+        rep.count(r["runs"])
+        rep.validated(r["n"])
+        rep.cov["many_sizer_schemas"] = rep.cov.get("many_sizer_schemas", 0) + r["n"]
+        for f in r["fails"]:
+            rep.violation(f, shadows.match("C20", f))
     rep.cov["configurations_model_checked"] = len(cases)
     rep.cov["configurations_run"] = len(pick)
     rep.cov["rule"] = ("configurations from TLC (spec/FileProc.tla) x {repeat, hash seeds, working directory, "
@@ -1298,9 +1458,11 @@ def rule_breakers(base, rnd):
     -> list of (label, defs)"""
     I, M, R = S.Int, S.Mem, S.Ref
     n = len(base)
-    G, D, TG, TD, TTD, TF = n + 1, n + 2, n + 3, n + 4, n + 5, n + 6
+    G, D, TG, TD, TTD, TF, K, K2 = n + 1, n + 2, n + 3, n + 4, n + 5, n + 6, n + 7, n + 8
     helpers = [S.StructDef([M("greedy", I(1))]), S.StructDef([M("dyn", I(2))]),
-               S.TypedefDef(R(G)), S.TypedefDef(R(D)), S.TypedefDef(R(TD)), S.TypedefDef(S.Flt(4))]
+               S.TypedefDef(R(G)), S.TypedefDef(R(D)), S.TypedefDef(R(TD)), S.TypedefDef(S.Flt(4)),
+               # unlimited only through their last member: with an own dynamic array in front of it / without
+               S.StructDef([M("dyn", I(1)), M("plain", R(G))]), S.StructDef([M("plain", I(2)), M("plain", R(G))])]
     fixed_types = [I(1), I(4), S.Flt(8)]
     other = rnd.choice(fixed_types)
     out = []
@@ -1330,6 +1492,11 @@ def rule_breakers(base, rnd):
     victim("zero fixed array size", st([M("fixed", I(2), 0)]))
     victim("zero array limit", st([M("lim", I(2), 0)]))
     victim("duplicate discriminators", S.UnionDef([{"d": 3, "t": I(1)}, {"d": 3, "t": I(2)}]))
+    for lab, k in (("own dynamic array + nested unlimited tail", K), ("nested unlimited tail", K2)):
+        victim("unlimited struct (%s) not last" % lab, st([M("plain", R(k)), M("plain", other)]))
+        victim("unlimited struct (%s) in dynamic array" % lab, st([M("dyn", R(k))]))
+        victim("unlimited struct (%s) in greedy array" % lab, st([M("greedy", R(k))]))
+        victim("optional unlimited struct (%s)" % lab, st([M("opt", R(k))]))
     # the same rules with the offending type reached through typedefs
     victim("unlimited struct (typedef) not last", st([M("plain", R(TG)), M("plain", other)]))
     victim("unlimited struct (typedef) in dynamic array", st([M("dyn", R(TG))]))
@@ -1732,6 +1899,15 @@ def concretise(case, rnd, root):
                 '<constant name="ZK" value="1/0"/></defs>',
                 '<constant name="ZZ" value="0"/><struct name="Z"><member name="a" type="u8"><dimension size="4/ZZ"/></member></struct></defs>',
                 '<enum name="ZE"><enum-member name="ZE_a" value="5 / (2 - 2)"/></enum></defs>']))
+        elif fault == "malformed_operator_call":
+            # the operator calls other_schemas.rst documents for isar values, not closed / with a wrong argument count
+            text = text.replace("</defs>", variant([
+                '<constant name="ZK" value="shiftLeft(1, 4"/></defs>',
+                '<enum name="ZE"><enum-member name="ZE_a" value="bitMaskOr(1, shiftLeft(1, 3)"/></enum></defs>',
+                '<constant name="ZK" value="shiftLeft((1, 4)"/></defs>',
+                '<constant name="ZK" value="bitMaskOr("/></defs>',
+                '<constant name="ZK" value="shiftLeft(1, 2, 3)"/></defs>',
+                '<enum name="ZE"><enum-member name="ZE_a" value="shiftLeft()"/></enum></defs>']))
         elif fault == "size_names_type":
             text = text.replace("</defs>", variant([
                 '<typedef name="ZT" primitiveType="32 bit integer unsigned"/><struct name="Z"><member name="a" type="u8"><dimension size="ZT"/></member></struct></defs>',
@@ -1860,7 +2036,8 @@ def c13(tier, replay):
                                                 max(reps, 12) if c["fault"] == "bad_dimension" else
                                                 reps if c["fault"] in ("random_text", "illegal_char", "empty_file", "division_by_zero",
                                                                         "size_names_type", "non_utf8", "absurd_shift", "negative_shift_constant",
-                                                                        "empty_member_name", "deep_typedef_chain", "bad_dimension") else 1)]
+                                                                        "empty_member_name", "deep_typedef_chain", "bad_dimension") else
+                                                max(reps, 6) if c["fault"] == "malformed_operator_call" else 1)]
     jobs = _chunks(allcases, NCPU)
     with ProcessPoolExecutor(max_workers=NCPU) as ex:
         results = list(ex.map(termination_worker, jobs, range(len(jobs)),
